@@ -101,8 +101,13 @@ func (c *Ctx) classifyStreamID(e *EmitSite) (string, bool) {
 		return "id field " + fr.String() + " of some other stream value " + desc(base), false
 	}
 	// (b) same value as the table key in the enclosing creation/allocation function
-	top := topFn(e.Fn)
-	if top == a.Allocate || top == a.Create {
+	var top *ssa.Function
+	if w.ownedBy(e.Fn, a.Allocate) {
+		top = a.Allocate
+	} else if w.ownedBy(e.Fn, a.Create) {
+		top = a.Create
+	}
+	if top != nil {
 		table := a.ChStreams
 		if top == a.Create {
 			table = a.SvStreams
@@ -155,7 +160,7 @@ func ruleFrameKindFloor(c *Ctx, rule string) {
 	c.rule(rule, "every frame literal reaches a carrier send and every one of the protocol's frame kinds has an emit site (instance floor for the emit-site rules)")
 	w := c.W
 	have := map[string]int{}
-	for _, e := range c.realEmitSites() {
+	for _, e := range c.emitSeq() {
 		have[e.Kind]++
 		c.check(e.Send != nil && e.Kind != "", rule, emitKey(w, e)+": reaches a send", w.At(e.Alloc),
 			"frame literal is passed to a carrier send", "frame literal has no oneof wrapper or is not passed directly to a carrier Send (unrecognised emit shape)")
@@ -175,7 +180,7 @@ func ruleEmitIDs(c *Ctx, rule string) {
 	_, _, ok := c.streamIDFields()
 	c.check(ok, rule, "stream id fields inferred on both ends", "-", "id field = field of the new stream object that receives the table key", "could not infer which field of the stream objects holds the stream id (table insert or construction rewritten)")
 	n := 0
-	for _, e := range c.realEmitSites() {
+	for _, e := range c.emitSeq() {
 		n++
 		why, ok := c.classifyStreamID(e)
 		c.check(ok, rule, emitKey(w, e)+": StreamId origin", w.At(e.Alloc), why, "StreamId is "+why+": a frame could be attributed to a different RPC")
@@ -189,7 +194,7 @@ func ruleSettingsEmit(c *Ctx, rule string) {
 	w := c.W
 	a := w.Anchors()
 	var sites []*EmitSite
-	for _, e := range c.realEmitSites() {
+	for _, e := range c.emitSeq() {
 		if e.Kind == "ServerToClient_Settings" {
 			sites = append(sites, e)
 		}
@@ -202,17 +207,12 @@ func ruleSettingsEmit(c *Ctx, rule string) {
 	for _, e := range sites {
 		key := emitKey(w, e)
 		// located in (a closure of) the server loop function, before the loop
-		top := topFn(e.Fn)
-		c.check(top == a.ServerLoop, rule, key+": in the serve function", w.At(e.Alloc), "emitted from the serve prologue", "settings emitted from "+w.Short(top)+", not from the serve prologue")
+		top := a.ServerLoop
+		c.check(w.ownedBy(e.Fn, a.ServerLoop), rule, key+": in the serve function", w.At(e.Alloc), "emitted from the serve prologue", "settings emitted from "+w.Short(topFn(e.Fn))+", not from the serve prologue")
 		var point ssa.Instruction = e.Send
 		if e.Fn != top {
-			// closure: find its spawn/call site in the parent
-			point = nil
-			for _, s := range w.callSitesOf(e.Fn) {
-				if s.Parent() == top {
-					point = s
-				}
-			}
+			// closure / spawned method / helper: its spawn or call site in the serve function
+			point = w.liftTo(e.Send, top)
 		}
 		if point == nil {
 			c.fail(rule, key+": spawn site", w.At(e.Alloc), "cannot find where the settings closure is started")
@@ -281,7 +281,7 @@ func ruleEnvelopeShape(c *Ctx, rule string) {
 		}
 		return -1
 	}
-	for _, e := range c.realEmitSites() {
+	for _, e := range c.emitSeq() {
 		fld, isMsg := msgKinds[e.Kind]
 		cfld, isCont := contKinds[e.Kind]
 		if !isMsg && !isCont {
@@ -398,7 +398,7 @@ func ruleContiguity(c *Ctx, rule string) {
 	// other emitters
 	ordered := map[string]bool{"ServerToClient_ResponseHeaders": true, "ClientToServer_HalfClose": true, "ServerToClient_CloseStream": true}
 	n := 0
-	for _, e := range c.realEmitSites() {
+	for _, e := range c.emitSeq() {
 		if !ordered[e.Kind] || e.Send == nil {
 			continue
 		}
@@ -427,7 +427,7 @@ func ruleContiguity(c *Ctx, rule string) {
 		decided := false
 		var up func(fn *ssa.Function, depth int) bool
 		up = func(fn *ssa.Function, depth int) bool {
-			if fn.Parent() == nil || depth > 3 {
+			if !w.isSubordinate(fn) || depth > 3 {
 				return false
 			}
 			sites := w.callSitesOf(fn)
@@ -438,7 +438,7 @@ func ruleContiguity(c *Ctx, rule string) {
 				if _, isGo := s.(*ssa.Go); isGo && lf.relMust[s] != nil && union(lf.EntryMust[s.Parent()], lf.relMust[s]).has(wl) {
 					continue
 				}
-				if s.Parent().Parent() != nil && up(s.Parent(), depth+1) {
+				if w.isSubordinate(s.Parent()) && up(s.Parent(), depth+1) {
 					continue
 				}
 				return false
@@ -511,8 +511,12 @@ func (c *Ctx) findOnceFlag(point ssa.Instruction, nt *types.Named) (FieldRef, bo
 
 // spawnPointOf: for an emit inside a `go` closure, the go statement in the parent; otherwise the send itself.
 func (c *Ctx) spawnPointOf(e *EmitSite) ssa.Instruction {
-	if e.Fn.Parent() == nil {
+	if !c.W.isSubordinate(e.Fn) {
 		return e.Send
+	}
+	if e.Fn.Parent() == nil {
+		// method or helper used at exactly one place (e.g. started with `go` by the finishing function)
+		return c.W.soleSite(e.Fn)
 	}
 	for _, s := range c.W.callSitesOf(e.Fn) {
 		if s.Parent() == e.Fn.Parent() {
@@ -528,7 +532,7 @@ func ruleHalfCloseOnce(c *Ctx, rule string) {
 	w := c.W
 	a := w.Anchors()
 	n := 0
-	for _, e := range c.realEmitSites() {
+	for _, e := range c.emitSeq() {
 		if e.Kind != "ClientToServer_HalfClose" || e.Send == nil {
 			continue
 		}
@@ -555,7 +559,7 @@ func ruleHalfCloseOnce(c *Ctx, rule string) {
 // halfClosedFlag: the once-flag of the half_close emit (used by C13.10).
 func (c *Ctx) halfClosedFlag() (FieldRef, bool) {
 	a := c.W.Anchors()
-	for _, e := range c.realEmitSites() {
+	for _, e := range c.emitSeq() {
 		if e.Kind == "ClientToServer_HalfClose" && e.Send != nil {
 			return c.findOnceFlag(e.Send, a.CS)
 		}
@@ -661,7 +665,7 @@ func ruleCancelOnce(c *Ctx, rule string) {
 	w := c.W
 	a := w.Anchors()
 	n := 0
-	for _, e := range c.realEmitSites() {
+	for _, e := range c.emitSeq() {
 		if e.Kind != "ClientToServer_Cancel" || e.Send == nil {
 			continue
 		}
@@ -699,13 +703,13 @@ func ruleHeadersOnce(c *Ctx, rule string) {
 	a := w.Anchors()
 	lf := w.Locks()
 	n := 0
-	for _, e := range c.realEmitSites() {
+	for _, e := range c.emitSeq() {
 		if e.Kind != "ServerToClient_ResponseHeaders" || e.Send == nil {
 			continue
 		}
 		n++
 		key := emitKey(w, e) + ": once-guard"
-		if e.Fn.Parent() == nil {
+		if !w.isSubordinate(e.Fn) {
 			// helper form: every caller tests the flag false; the helper sets it on all paths
 			sites := w.callSitesOf(e.Fn)
 			if _, local := c.findOnceFlag(e.Send, a.SS); local || len(sites) == 0 {
@@ -769,9 +773,13 @@ func ruleHeadersOnce(c *Ctx, rule string) {
 		// closure form: guarded by a captured copy of !flag, decided under the lock in the parent
 		var capLoad *ssa.UnOp
 		var flag FieldRef
+		parent := e.Fn.Parent()
+		if sp := c.spawnPointOf(e); sp != nil {
+			parent = sp.Parent() // function literal, or method started by the finishing function
+		}
 		for _, f := range boolFactsAt(e.Send) {
 			if u, ok := f.V.(*ssa.UnOp); ok && u.Op == token.MUL && !f.True {
-				if r, _, ok := fieldOfAddr(u.X); ok && a.SS != nil && r.Type == a.SS.Obj().Name() && u.Parent() == e.Fn.Parent() {
+				if r, _, ok := fieldOfAddr(u.X); ok && a.SS != nil && r.Type == a.SS.Obj().Name() && u.Parent() == parent {
 					capLoad, flag = u, r
 				}
 			}
@@ -780,7 +788,6 @@ func ruleHeadersOnce(c *Ctx, rule string) {
 			c.fail(rule, key, w.At(e.Send), "the emit in the finish goroutine is not guarded by a captured headers-not-yet-sent decision taken in the parent")
 			continue
 		}
-		parent := e.Fn.Parent()
 		locks := perStreamLocks(lf.MustAt(capLoad), a.SS)
 		if len(locks) == 0 {
 			c.fail(rule, key, w.At(capLoad), "the headers-not-yet-sent decision is taken with no server-stream mutex held")
@@ -824,7 +831,7 @@ func ruleHeadersBeforeData(c *Ctx, rule string) {
 					return true
 				}
 				// or an inline response_headers emit
-				for _, e := range c.realEmitSites() {
+				for _, e := range c.emitSeq() {
 					if e.Kind == "ServerToClient_ResponseHeaders" && e.Send == in {
 						return true
 					}
@@ -895,8 +902,8 @@ func ruleCloseOnce(c *Ctx, rule string) {
 		return
 	}
 	n := 0
-	for _, e := range c.realEmitSites() {
-		if e.Kind != "ServerToClient_CloseStream" || e.Send == nil || topFn(e.Fn) != a.ServerFinish {
+	for _, e := range c.emitSeq() {
+		if e.Kind != "ServerToClient_CloseStream" || e.Send == nil || !w.ownedBy(e.Fn, a.ServerFinish) {
 			continue
 		}
 		n++
@@ -918,7 +925,7 @@ func ruleCloseOnce(c *Ctx, rule string) {
 		}
 		c.onceGuardedByFlag(rule, key, pt, flag, locks[0])
 		// inside the closure the close emit is unconditional
-		if e.Fn.Parent() != nil {
+		if w.isSubordinate(e.Fn) {
 			c.check(pathAvoiding(e.Fn, nil, isExit, func(in ssa.Instruction) bool { return in == e.Send }) == nil, rule, emitKey(w, e)+": unconditional inside the goroutine", w.At(e.Send), "every path of the goroutine sends close_stream", "a path through the finish goroutine skips the close_stream emit")
 		}
 	}
@@ -1004,7 +1011,7 @@ func ruleRejectClose(c *Ctx, rule string) {
 		return
 	}
 	n := 0
-	for _, e := range c.realEmitSites() {
+	for _, e := range c.emitSeq() {
 		if e.Kind != "ServerToClient_CloseStream" || !c.isRejectionEmit(e) || e.Send == nil {
 			continue
 		}
@@ -1081,10 +1088,11 @@ func (c *Ctx) isRejectionEmit(e *EmitSite) bool {
 	if a.ServerLoop == nil {
 		return false
 	}
-	if topFn(e.Fn) == a.ServerLoop {
+	w := c.W
+	if w.ownedBy(e.Fn, a.ServerLoop) {
 		return true
 	}
-	if e.Fn.Parent() != nil || e.Fn == a.ServerFinish || topFn(e.Fn) == a.ServerFinish {
+	if e.Fn.Parent() != nil || e.Fn == a.ServerFinish || w.ownedBy(e.Fn, a.ServerFinish) {
 		return false
 	}
 	sites := c.W.callSitesOf(e.Fn)
